@@ -143,7 +143,9 @@ class MsgProp:
             if rng.random() < 0.6 or len(payload) < 4:
                 # (now and then behind a tag block with an NMEA 4.10 grouping parameter: it says nothing about this sentence)
                 tb_ = rng.choice([None, None, None, b"g:1-2-%d" % rng.randrange(1, 99), b"g:2-2-%d" % rng.randrange(1, 99), b"g:1-1-3*00", b"s:x,g:1-3-7"])
-                ops.append(L(ais.sentence(payload, fill=fill, tagblock=tb_), 0, 1))
+                # (a count may be spelled with leading zeros: `05` is 5)
+                ft_ = (b"0" * rng.choice([1, 2]) + str(fill).encode()) if rng.random() < 0.2 else None
+                ops.append(L(ais.sentence(payload, fill=fill, tagblock=tb_, fill_txt=ft_), 0, 1))
             else:
                 n = rng.choice([2, 3])
                 cut = sorted(rng.sample(range(1, len(payload)), n - 1))
@@ -298,7 +300,9 @@ class C04(MsgProp):
     FLAG_ENUMS = {"dte", "position_accuracy", "accuracy", "fix_quality", "assigned_mode", "cs_unit"}
 
     def project(self, op, ans):
-        return proj_keys(ans, lambda k, kind, v: int_key(k, kind, v) or base(k) in self.FLAG_ENUMS)
+        # (the slot parameters of the communication state are integers like any other: as the model reads them)
+        return proj_keys(ans, lambda k, kind, v: int_key(k, kind, v) or base(k) in self.FLAG_ENUMS or
+                         (base(k) in RADIO and base(k) not in ("radio", "sync_state", "sub_message")))
 
     def cases(self, tier, rng):
         nrand = 40 if tier == "quick" else 600
@@ -779,6 +783,20 @@ class C12(MsgProp):
                         ops.append(m_op(gen.full_payload(t, f) + gen.tail_for(t, rng)))
             if ops:
                 yield (f"enum:{t}", ops)
+        # enumerated fields of messages that end early: type 5 at every byte length that still holds its mandatory part
+        # (the DTE flag is the bit after whatever is left of the destination), types 19, 21, 24 one byte short and long
+        ops = []
+        for n in range(38, 55):
+            for _ in range(6):
+                f = gen.base_fields(5, rng, ais.LAYOUTS[5])
+                f["destination"] = gen.chars_value(gen.structured_chars(rng, 20)) if rng.random() < 0.5 else rng.getrandbits(120)
+                ops.append(m_op((gen.full_payload(5, f) + b"\x00\xff")[:n]))
+        for t in (19, 21, "24A", "24B", 18, 9, 4):
+            for d in (-2, -1, 1, 2):
+                f = gen.base_fields(t, rng, ais.LAYOUTS[t])
+                bs = gen.full_payload(t, f) + bytes([rng.getrandbits(8), rng.getrandbits(8)])
+                ops.append(m_op(bs[:len(bs) - 2 + d]))
+        yield ("enum:truncated", ops)
 
 
 # ---------------------------------------------------------------- C13
@@ -850,6 +868,17 @@ class C13(MsgProp):
                 for nb in range(3, len(bs) + 1):
                     ops.append(m_op(bs[:nb]))
         yield ("text:truncated", ops)
+        # the per-type public decoders (op P) handed a text-bearing message of ANOTHER type: each decoder reads the text at
+        # its own position, whatever the six type bits say; compared where implementation and model both report a message
+        ops = []
+        for t in (12, 14, 5, 19, 21, "24A", "24B"):
+            for _ in range(3):
+                f = gen.base_fields(t, rng, ais.LAYOUTS[t])
+                bs = gen.full_payload(t, f) + ais.bits_to_bytes([b_ for c in gen.structured_chars(rng, 12) for b_ in [(c >> (5 - i)) & 1 for i in range(6)]])
+                for t2 in (12, 14, 5, 19, 21, 24):
+                    if t2 != (24 if str(t).startswith("24") else t):
+                        ops.append(f"P {t2} {hexs(bs)}")
+        yield ("foreign-decoder", ops)
         for t, hdr in ((12, 72), (14, 40)):
             ops = []
             lens = list(range(1, 30)) + [40, 60, 100, 155, 156, 157] if tier == "quick" else list(range(1, 160))
@@ -952,6 +981,10 @@ class C15(MsgProp):
         return proj_keys(ans, lambda k, kind, v: base(k) in ("data", "dac", "fid", "p_message_type", "station_id",
                                                              "z_count", "sequence_number", "n", "health"))
 
+    def extra_run(self, rep, tier, cfgs):
+        from .props_hist import C20
+        C20().tool_pass(rep, "C15")
+
     def extra_judge(self, rep, cfg, op, a, m):
         pa = parse_answer(a)
         if pa["cls"] != "ok":
@@ -1050,6 +1083,26 @@ class C16(MsgProp):
         for op, a, m in zip(ops, impl, model):
             rep.evaluations += 1
             rep.count(label)
+            if op.startswith("Q "):
+                if a.strip() != m.strip():
+                    rep.violation(f"C16: a communication-state decoder called directly ({op[:24]} ...) answers {a[:120]!r}, the model {m[:120]!r}",
+                                  {"cfg": cfg, "ops": [op], "impl": a, "model": m})
+                elif a.startswith("ok"):
+                    # ... and that is the specified reading of the 19 bits at that offset
+                    _, kind, off, t, hx = op.split(" ")
+                    bs = bytes.fromhex(hx)
+                    v = ais.field(bs, int(off), 19)
+                    itdma = kind == "itdma" or (kind == "radio" and t == "3")
+                    fake = bytearray(21)
+                    for i in range(19):
+                        if (v >> (18 - i)) & 1:
+                            fake[(149 + i) // 8] |= 0x80 >> ((149 + i) % 8)
+                    want = spec_radio(3 if itdma else 1, bytes(fake))
+                    got = {k: v2 for k, v2 in parse_answer(a)["kv"].items() if k in RADIO}
+                    if got != want:
+                        rep.violation(f"C16: direct decoding at bit offset {off} gives {got}, specified {want}", {"cfg": cfg, "ops": [op], "impl": a})
+                    rep.nontrivial.add(op)
+                continue
             pa = parse_answer(a)
             if pa["cls"] != "ok":
                 if self.project(op, a) != self.project(op, m):
@@ -1117,6 +1170,21 @@ class C16(MsgProp):
                         bs = bs[:rng.choice([20, 20, 19, 18, 12])]
                     ops.append(m_op(bs))
             yield (f"radio:{t}", ops)
+        # the public decoders of `messages::radio_status` called directly, the 19 bits starting at ANY bit offset of a
+        # buffer (inside a message it is 5, or 4 for type 9): the same state, bit for bit
+        ops = []
+        for off in range(8):
+            for kind, types in (("sotdma", (0,)), ("itdma", (0,)), ("radio", (1, 2, 3, 4, 9, 11, 18, 0, 5, 27))):
+                for t in types:
+                    for v in [0, (1 << 19) - 1, 1, 2, 3, 0x60006, 0x20006] + [rng.getrandbits(19) for _ in range(6)] + \
+                             [(to << 14) | rng.getrandbits(14) | 1 for to in range(8)]:
+                        for extra in (0, 1, 3):
+                            nbits = off + 19
+                            bits = [rng.getrandbits(1) for _ in range(off)] + [(v >> (18 - i)) & 1 for i in range(19)]
+                            bits += [rng.getrandbits(1) for _ in range((8 - len(bits) % 8) % 8 + 8 * extra)]
+                            ops.append(f"Q {kind} {off} {t} {ais.bits_to_bytes(bits).hex()}")
+                    ops.append(f"Q {kind} {off} {t} {bytes([rng.getrandbits(8), rng.getrandbits(8)]).hex()}")
+        yield ("direct-entry", ops)
 
 
 # ---------------------------------------------------------------- C03
@@ -1190,6 +1258,14 @@ class C03:
                 for first in b"1358;":
                     s0 = bytes([first]) + gen.random_alphabet(rng, max(0, n - 3)) + b"ww"
                     ops.append(f"U {fill} {s0[:n].hex() if n >= 2 else s0[:1].hex()}")
+        # long strings (beyond 384 and 512 characters, any tile or block size) with ONE byte outside the alphabet, early,
+        # at block boundaries and late: an error wherever it stands
+        for n in (385, 400, 511, 512, 513, 700, 769, 1000):
+            for pos in (0, 1, 5, 167, 168, 255, 256, 383, 384, n // 2, n - 2, n - 1):
+                if pos < n:
+                    t = bytearray(gen.random_alphabet(rng, n))
+                    t[pos] = rng.choice((47, 88, 95, 120, 0, 255, 32, 44))
+                    ops.append(f"U {rng.randrange(6)} {bytes(t).hex()}")
         yield ("invalid-byte", ops)
         # well-formed multi-byte UTF-8 sequences (a payload read as text): every byte of them is outside the
         # alphabet, whatever their code point is modulo 256
